@@ -7,10 +7,15 @@ Extracted decisions
   * the alias f-string of `_get_function_applied_columns` (f"{func_name}({name})", func_name lower-cased)     -> `shortcutAlias`
   * `count()`: `self.agg(F.count("*").alias("count"))`                                                        -> `countArgIsStar`, `countAlias`
   * the decorator of `GroupedData.agg` (`@group_operation(Operation.SELECT)`)                                 -> `groupAggTag`
-  * `agg`'s plain branch: GROUP BY on `x.column_expression` (un-aliased), select list `group_by_cols + cols`,
-    `append=False`                                                                                            -> checked shape + `aggSelectKeysFirst`
-  * `agg`'s grouping-set branch (cube): one tuple of un-aliased expressions per set, keys de-duplicated in
-    first-appearance order, select list `group_by_cols + cols`                                                -> checked shape
+  * `agg`'s plain branch: GROUP BY on `[x.column_expression for x in self.group_by_cols <if …>]` (un-aliased): WHICH keys
+    reach the GROUP BY clause, as a predicate over the sqlglot class of the key's expression (string literal, number
+    literal, Boolean, Null, Column, anything else)                                                            -> `KeyClass`, `groupByKeeps`
+    select list `group_by_cols + cols`, `append=False`                                                        -> checked shape
+  * `agg`'s grouping-set branch (cube): one tuple `[x.column_expression for x in grouping_set <if …>]` per set -> `groupingSetKeeps`
+    keys de-duplicated in first-appearance order, select list `group_by_cols + cols`                          -> checked shape
+  * which branch is taken (`not self.group_by_cols or not isinstance(self.group_by_cols[0], (list, tuple, set))`): a key list
+    is a list of grouping sets only if its first element is a list — in particular a non-empty list of plain keys is never
+    turned into a global aggregate                                                                            -> checked shape
   * `DataFrame.agg` = `df.groupBy().agg(*cols)`                                                               -> checked shape
   * `cube`'s loop `for i in reversed(range(len(columns) + 1)): … itertools.combinations(columns, i)`          -> `cubeSizes`
 Anything else raises Untranslatable.
@@ -128,6 +133,107 @@ def _shortcuts(cls: ast.ClassDef) -> t.Tuple[t.List[t.Tuple[str, str]], str, boo
     return sorted(table.items()), count_alias, star
 
 
+KEY_CLASSES = ["strLit", "numLit", "boolLit", "nullLit", "column", "other"]
+# sqlglot class -> the key classes whose expressions are instances of it (as far as the model tells keys apart)
+CLASS_SETS = {
+    "Literal": {"strLit", "numLit"},
+    "Null": {"nullLit"},
+    "Boolean": {"boolLit"},
+    "Column": {"column"},
+    "Expression": set(KEY_CLASSES),
+}
+KEY_EXPR = "x.column_expression"
+
+
+def _class_pred(e: ast.expr, ob: str) -> t.Set[str]:
+    """the set of key classes a filter condition over `x.column_expression` holds for"""
+    if isinstance(e, ast.UnaryOp) and isinstance(e.op, ast.Not):
+        return set(KEY_CLASSES) - _class_pred(e.operand, ob)
+    if isinstance(e, ast.BoolOp):
+        sets = [_class_pred(v, ob) for v in e.values]
+        out = sets[0]
+        for s_ in sets[1:]:
+            out = (out & s_) if isinstance(e.op, ast.And) else (out | s_)
+        return out
+    if isinstance(e, ast.Call) and ast.unparse(e.func) == "isinstance" and len(e.args) == 2 and not e.keywords and ast.unparse(e.args[0]) == KEY_EXPR:
+        names = e.args[1].elts if isinstance(e.args[1], ast.Tuple) else [e.args[1]]
+        out: t.Set[str] = set()
+        for n in names:
+            src = ast.unparse(n)
+            cls = src.split(".")[-1]
+            if src not in (f"exp.{cls}", f"expression.{cls}", f"sqlglot.exp.{cls}", f"sqlglot.expressions.{cls}") or cls not in CLASS_SETS:
+                raise Untranslatable(ob, f"key filter tests an expression class the model does not tell apart: {src!r}")
+            out |= CLASS_SETS[cls]
+        return out
+    if isinstance(e, ast.Attribute) and ast.unparse(e.value) == KEY_EXPR and e.attr in ("is_string", "is_number"):
+        return {"strLit"} if e.attr == "is_string" else {"numLit"}
+    if isinstance(e, ast.Constant) and isinstance(e.value, bool):
+        return set(KEY_CLASSES) if e.value else set()
+    raise Untranslatable(ob, f"unsupported key filter {ast.unparse(e)!r}")
+
+
+def _key_comprehension(comp: ast.expr, source: str, ob: str) -> t.Set[str]:
+    """`[x.column_expression for x in <source> <if cond>*]` -> the key classes that are kept"""
+    if not isinstance(comp, ast.ListComp) or len(comp.generators) != 1:
+        raise Untranslatable(ob, f"GROUP BY list is not a single list comprehension: {ast.unparse(comp)[:90]!r}")
+    g = comp.generators[0]
+    if ast.unparse(comp.elt) != KEY_EXPR or ast.unparse(g.target) != "x" or ast.unparse(g.iter) != source or g.is_async:
+        raise Untranslatable(ob, f"GROUP BY list is not `[{KEY_EXPR} for x in {source} …]`: {ast.unparse(comp)[:90]!r}")
+    kept = set(KEY_CLASSES)
+    for cond in g.ifs:
+        kept &= _class_pred(cond, ob)
+    return kept
+
+
+def _keeps_term(kept: t.Set[str]) -> str:
+    if kept == set(KEY_CLASSES):
+        return "fun _ => true"
+    if not kept:
+        return "fun _ => false"
+    return "fun c => " + " || ".join(f"c == .{k}" for k in KEY_CLASSES if k in kept)
+
+
+def _group_by_lists(fn: ast.FunctionDef) -> t.Tuple[t.Set[str], t.Set[str]]:
+    """(key classes kept in the plain GROUP BY, key classes kept in a grouping set's tuple)"""
+    ob = OB + ".agg"
+    plain: t.List[ast.Call] = []
+    tuples: t.List[ast.Call] = []
+    for n in ast.walk(fn):
+        if isinstance(n, ast.Call) and isinstance(n.func, ast.Attribute) and n.func.attr == "group_by":
+            plain.append(n)
+        if isinstance(n, ast.Call) and ast.unparse(n.func) == "exp.Tuple":
+            tuples.append(n)
+    if len(plain) != 1 or ast.unparse(plain[0].func.value) != "self._df.expression":  # type: ignore
+        raise Untranslatable(ob, "expected exactly one `self._df.expression.group_by(...)` call")
+    c = plain[0]
+    if len(c.args) != 1 or not isinstance(c.args[0], ast.Starred) or c.keywords:
+        raise Untranslatable(ob, f"group_by arguments are not one starred list: {ast.unparse(c)[:90]!r}")
+    keep_plain = _key_comprehension(c.args[0].value, "self.group_by_cols", ob)
+    # … and it is the statement `expression = self._df.expression.group_by(…).select(…)`
+    if not any(
+        isinstance(n, ast.Assign)
+        and ast.unparse(n.targets[0]) == "expression"
+        and isinstance(n.value, ast.Call)
+        and isinstance(n.value.func, ast.Attribute)
+        and n.value.func.attr == "select"
+        and n.value.func.value is c
+        for n in ast.walk(fn)
+    ):
+        raise Untranslatable(ob, "the GROUP BY of the plain branch is not followed by `.select(…)` and assigned to `expression`")
+    if len(tuples) != 1:
+        raise Untranslatable(ob, "expected exactly one `exp.Tuple(...)` (one per grouping set)")
+    tcall = tuples[0]
+    if tcall.args or [k.arg for k in tcall.keywords] != ["expressions"]:
+        raise Untranslatable(ob, f"grouping-set tuple is not `exp.Tuple(expressions=[…])`: {ast.unparse(tcall)[:90]!r}")
+    keep_sets = _key_comprehension(tcall.keywords[0].value, "grouping_set", ob)
+    if not any(
+        isinstance(n, ast.Call) and ast.unparse(n.func) == "all_grouping_sets.append" and len(n.args) == 1 and n.args[0] is tcall and not n.keywords
+        for n in ast.walk(fn)
+    ):
+        raise Untranslatable(ob, "the grouping-set tuple is not appended to all_grouping_sets")
+    return keep_plain, keep_sets
+
+
 def _agg_shape(fn: ast.FunctionDef) -> str:
     """checks GroupedData.agg against the modelled shape; returns the decorator tag"""
     ob = OB + ".agg"
@@ -140,10 +246,11 @@ def _agg_shape(fn: ast.FunctionDef) -> str:
     src = ast.unparse(fn)
     needed = [
         # plain branch
-        "expression = self._df.expression.group_by(*[x.column_expression for x in self.group_by_cols]).select(*[x.expression for x in self.group_by_cols + cols], append=False)",
+        ").select(*[x.expression for x in self.group_by_cols + cols], append=False)",
+        "group_by_cols = self.group_by_cols",
         "cols = self._df._ensure_and_normalize_cols(columns)",
         # grouping-set branch
-        "all_grouping_sets.append(exp.Tuple(expressions=[x.column_expression for x in grouping_set]))",
+        "for grouping_set in self.group_by_cols:",
         "group_by_cols.extend(grouping_set)",
         "group_by_cols = list(dict.fromkeys(group_by_cols))",
         "group_by = exp.Group(grouping_sets=[exp.GroupingSets(expressions=all_grouping_sets)])",
@@ -210,6 +317,7 @@ def gen_group(repo: str) -> str:
     parts, lower = _alias_format(find_func(gd.body, "_get_function_applied_columns"))
     table, count_alias, star = _shortcuts(gd)
     tag = _agg_shape(find_func(gd.body, "agg"))
+    keep_plain, keep_sets = _group_by_lists(find_func(gd.body, "agg"))
     dmod = parse(repo, "sqlframe/base/dataframe.py")
     df = find_class(dmod, "BaseDataFrame")
     sizes = _cube_sizes(find_func(df.body, "cube"))
@@ -239,6 +347,19 @@ def gen_group(repo: str) -> str:
     out.append("/-- `agg` builds GROUP BY on the un-aliased key expressions and the select list `keys ++ aggregates` (append=False);")
     out.append("    the grouping-set branch builds one tuple per set and the select list `all keys (first-appearance order) ++ aggregates` -/")
     out.append("def aggShapeChecked : Bool := true")
+    out.append("")
+    out.append("/-- sqlglot class of a key's un-aliased expression (`x.column_expression`), as far as `agg` can tell keys apart:")
+    out.append("    `exp.Literal` with / without `is_string`, `exp.Boolean`, `exp.Null`, `exp.Column`, anything else -/")
+    out.append("inductive KeyClass | " + " | ".join(KEY_CLASSES))
+    out.append("  deriving DecidableEq, Repr")
+    out.append("")
+    out.append("/-- plain branch: is a key of this class put into the GROUP BY clause?")
+    out.append("    (`[x.column_expression for x in self.group_by_cols <if …>]`) -/")
+    out.append(f"def groupByKeeps : KeyClass → Bool := {_keeps_term(keep_plain)}")
+    out.append("")
+    out.append("/-- grouping-set branch: is a key of this class put into the tuple of a grouping set it belongs to?")
+    out.append("    (`exp.Tuple(expressions=[x.column_expression for x in grouping_set <if …>])`) -/")
+    out.append(f"def groupingSetKeeps : KeyClass → Bool := {_keeps_term(keep_sets)}")
     out.append("")
     out.append("/-- sizes `i` for which `cube` emits `itertools.combinations(columns, i)`, in loop order (n = number of key columns) -/")
     out.append(f"def cubeSizes (n : Nat) : List Nat := {sizes}")
